@@ -30,6 +30,11 @@ structure ArithObs where
   resultOld : Bool       -- the result is (by identity) a *mutable* object that existed before the call
                          -- (an immutable one has no observable identity: CPython returns `t` itself for
                          -- `t + ()`, the one empty tuple for `n * ()`; the model always allocates)
+  specLiteralInResult : Bool := false
+                         -- a list / dict / set literal of the spec (an object `arg_val` rebuilds and AUTO
+                         -- interprets: glom never hands it out) is reachable from the result.  In the model a
+                         -- literal is syntax (`Sp.seq` / `Sp.dict`), the container it denotes is created by the
+                         -- evaluation (`evalArg`: `h ++ [.list "list" []]` …), so the model cannot show `true`.
   deriving DecidableEq, Repr
 
 def observe6 (n0 : Nat) (out : Out) : ArithObs :=
@@ -146,7 +151,7 @@ def outView (fuel : Nat) (o : Out) : Except Err6 (Option PV) := o.1.map (view6 o
 /-- the property, on one observed call: nothing that existed was written; a result that Python
     builds anew is not an old object -/
 def checkArith (h : Heap) (sp : Sp) (obs : ArithObs) : Bool :=
-  decide (obs.heapAfter = h) && (!sp.mustBeNew || !obs.resultOld)
+  decide (obs.heapAfter = h) && (!sp.mustBeNew || !obs.resultOld) && !obs.specLiteralInResult
 
 /-! ### histories that mix both kinds of events
 
